@@ -275,13 +275,13 @@ def gen(rng, tier):
     cases = []
     # exhaustive small schedules: 2 tasks, limit in {0,1,2}; every word over a small alphabet, then drain
     alpha = [["do"], ["coord"], ["work", 0], ["work", 1], ["quit"], ["shrink", 1], ["grow", 1]]
-    full = 3 if quick else 5          # exhaustive up to this length
+    full = 3 if quick else 4          # exhaustive up to this length
     depth = 6 if quick else 7         # longer words sampled
     for lim in (0, 1, 2):
         for n in range(1, depth + 1):
             words = itertools.product(range(len(alpha)), repeat=n)
             if n > full:
-                k = 120 if quick else 3000
+                k = 120 if quick else 800
                 words = [tuple(rng.randrange(len(alpha)) for _ in range(n)) for _ in range(k)]
             for word in words:
                 ops, tid = [], 0
@@ -294,7 +294,7 @@ def gen(rng, tier):
                         ops.append(list(o))
                 cases.append({"limit": lim, "ops": ops + [["drain"]]})
     # random longer schedules
-    for _ in range(350 if quick else 6000):
+    for _ in range(350 if quick else 3000):
         lim = rng.choice([0, 1, 1, 2, 3, 4])
         ops, tid = [], 0
         for _ in range(rng.randrange(4, 40)):
@@ -373,7 +373,7 @@ SPEC = Spec(
     to_coq=to_coq,
     nontrivial=lambda c, o: ":" in o and "q" in o,
     histogram=lambda c, o: f"limit={c['limit']} quit={'y' if ['quit'] in c['ops'] else 'n'}",
-    rule="every word up to length 3 (quick; thorough 5; longer ones up to 6 / 7 sampled) over {do, coordinator step, worker 0/1 "
+    rule="every word up to length 3 (quick; thorough 4; longer ones up to 6 / 7 sampled) over {do, coordinator step, worker 0/1 "
          "step, quit, shrink(1), grow(1)} for limit in {0,1,2}, each followed by a drain to quiescence; random "
          "schedules of 4-40 ops with tasks that raise, grow/shrink(n|None), limit changes, quit and drains; "
          "non-trivial = a task ran and a worker was quit",
